@@ -130,9 +130,11 @@ def make_world(plan, units=None):
     if drv == "tridonic":
         dev = TridonicGW(world, bus, line, lat, quirk=knobs.get("quirk", False))
         dev.stalls = [list(x) for x in knobs.get("stalls", [])]
+        dev.renumber = bool(knobs.get("glob")) and bool(knobs.get("renumber"))
     elif drv == "hasseb":
         dev = HassebGW(world, bus, line, lat, idle_spam=knobs.get("idle_spam", False))
         dev.stalls = [list(x) for x in knobs.get("stalls", [])]
+        dev.renumber = bool(knobs.get("glob")) and bool(knobs.get("renumber"))
 
         def expects(bits, value):
             return cmds.mk_cmd([bits, value, 0]).response is not None
